@@ -262,7 +262,7 @@ pub struct Bounds {
 }
 pub const QUICK: Bounds = Bounds { len_mul: 4, len_add: 1, cap_mul: 1, cap_add: 1, pats_vec: &[0, 1, 2, 3], pats: &[0, 2] };
 pub const THOROUGH: Bounds = Bounds { len_mul: 6, len_add: 2, cap_mul: 2, cap_add: 2, pats_vec: &[0, 1, 2, 3], pats: &[0, 2] };
-pub const MIRI: Bounds = Bounds { len_mul: 1, len_add: 2, cap_mul: 1, cap_add: 0, pats_vec: &[0, 1], pats: &[0] };
+pub const MIRI: Bounds = Bounds { len_mul: 1, len_add: 2, cap_mul: 1, cap_add: 0, pats_vec: &[1], pats: &[0] };
 
 pub fn shapes(t: &TypeInfo, fm: &FormMeta, owner: Owner, b: &Bounds, mut f: impl FnMut(P)) {
     let n = t.n;
